@@ -45,7 +45,8 @@ def _make_heap(init):
     for p in drive.kwargs_of({"properties": [_fixp(p) for p in init["init"]["dprops"]]})["properties"].items():
         cd[p[0]] = p[1]
     D = ObjectMeta("D", (C,), cd, **kwargs)
-    return {"E": E, "C": C, "D": D}
+    F = ObjectMeta("F", (C,), ObjectClassDict(), **drive.kwargs_of(_fixkw(init["init"]["fkw"])))
+    return {"E": E, "C": C, "D": D, "F": F}
 
 
 def _fixkw(kw):
@@ -144,7 +145,8 @@ def replay_history(task):
     rec = {"n": len(hist)}
     if not hist:
         # the subclass event: D's configuration right after class creation
-        rec["subclass"] = dict(parent=drive.project_element(objs["C"]), child=drive.project_element(objs["D"]))
+        rec["subclass"] = dict(parent=drive.project_element(objs["C"]), child=drive.project_element(objs["D"]),
+                               child2=drive.project_element(objs["F"]))
         rec["post"] = _proj_heap(objs)
         return rec
     try:
@@ -158,7 +160,7 @@ def replay_history(task):
         pre = _proj_heap(objs)
         flags = {}
         parent_before = None
-        if x == "D":
+        if x in ("D", "F"):
             parent_before = ([drive.call(objs["C"], v)[0] for v in values], _texts(objs["C"])[1])
         if op["op"] == "validate":
             v = _apply(objs, op, values)
@@ -186,7 +188,7 @@ def replay_history(task):
             fresh_obj = drive.build_element(post[x])
             fresh, _ = _call_obs(fresh_obj, v)
             rec.update(out=out, again=again, fresh=fresh)
-            if x == "D":
+            if x in ("D", "F"):
                 flags["instanceOfParent"] = (k != "ok") or isinstance(r, objs["C"])
                 flat, _ = _call_obs(fresh_obj, v)
                 rec["flat"] = flat
@@ -199,7 +201,7 @@ def replay_history(task):
         else:
             _apply(objs, op, values)
             post = _proj_heap(objs)
-        if x == "D":
+        if x in ("D", "F"):
             parent_after = ([drive.call(objs["C"], v)[0] for v in values], _texts(objs["C"])[1])
             flags["parentObsSame"] = parent_before == parent_after
         rec.update(pre=pre, post=post, flags=flags)
@@ -271,7 +273,7 @@ def sweep_state(st):
 
 # ------------------------------------------------------------------ driver
 def _heap_tla(h):
-    return "[" + ", ".join(f"{x} |-> {tlajson_to_tla(h[x])}" for x in ("E", "C", "D")) + "]"
+    return "[" + ", ".join(f"{x} |-> {tlajson_to_tla(h[x])}" for x in ("E", "C", "D", "F")) + "]"
 
 
 def _flags_tla(f):
@@ -343,12 +345,17 @@ def run(pid, tier, replay_file=None):
             events.append((eid, '[id |-> %d, op |-> "subclass", parent |-> %s, child |-> %s, dkw |-> %s, dprops |-> %s]'
                            % (eid, tlajson_to_tla(sc["parent"]), tlajson_to_tla(sc["child"]),
                               tlajson_to_tla(_fixkw(init["init"]["dkw"])), tlajson_to_tla(init["init"]["dprops"]))))
+            eid = len(index) + 1
+            index[eid] = si
+            events.append((eid, '[id |-> %d, op |-> "subclass", parent |-> %s, child |-> %s, dkw |-> %s, dprops |-> <<>>]'
+                           % (eid, tlajson_to_tla(sc["parent"]), tlajson_to_tla(sc["child2"]),
+                              tlajson_to_tla(_fixkw(init["init"]["fkw"])))))
             continue
         op = st["hist"][-1]
         ops[op["op"] + ":" + op["x"]] += 1
         # drift against the model's predicted heap / outcome
         try:
-            same_heap = all(drive.norm_elem(rec["post"][x]) == drive.norm_elem(_fix(st["heap"][x])) for x in ("E", "C", "D"))
+            same_heap = all(drive.norm_elem(rec["post"][x]) == drive.norm_elem(_fix(st["heap"][x])) for x in ("E", "C", "D", "F"))
         except Exception:  # noqa
             same_heap = False
         if not same_heap:
